@@ -24,6 +24,7 @@ struct World {
     int fn_live = 0;                         // live copies of task functors
     int budget = 40;
     int next_node = 0;
+    unsigned kind_mask = 0x7f;
 };
 World* W = nullptr;
 
@@ -43,7 +44,11 @@ struct Fn {
 void gen(Node& nd, int depth, hx::Desc& d, std::string& txt, bool canc = false, int top_arena = -1) {
     World& w = *W;
     nd.id = w.next_node++;
-    int choice = depth >= 3 || w.budget <= 2 ? 0 : (int)sim::draw(8, "node");
+    // weights: leaf 2, group 2, pfor 1, exec 1, enq 1, isolate 2, submit 1 (submit needs an enclosing group)
+    static const int kinds[] = {0, 0, 1, 1, 2, 3, 4, 5, 5, 6};
+    int choice = depth >= 5 || w.budget <= 2 ? 0 : kinds[sim::draw(10, "node")];
+    // swarm: each run enables a random subset of node kinds (bit k of kind_mask: kind k allowed)
+    if (choice && !(w.kind_mask & (1u << choice))) choice = (w.kind_mask & 2u) && depth < 4 ? 1 : 0;
     switch (choice) {
     default:
     case 0: case 7: {
@@ -187,6 +192,9 @@ SIM_SCENARIO(scen_c01, "c01", "C01", 3000000, 20000) {
         d.add(hx::fmt("arena%d(%d,%d)", i, maxc, res));
     }
     for (auto& s : shapes) world.arenas.push_back(new tbb::task_arena(s.first, (unsigned)s.second));
+    world.kind_mask = (unsigned)sim::draw(128, "kind_mask") | 1u;
+    if (sim::draw(4, "allkinds") == 0) world.kind_mask = 0x7f;
+    d.add(hx::fmt("kinds=%#x", world.kind_mask));
     int nuser = (int)sim::draw_range(1, 3, "users");
     std::vector<Node> roots(nuser);
     for (int t = 0; t < nuser; ++t) {
